@@ -39,6 +39,32 @@ pub fn val_table(v: &Val) -> Option<Table> {
     Some(t)
 }
 
+/// make a (shrunk / hand-written) table value consistent: bytes clamped to 0..=255,
+/// duplicate entries dropped (keys of a map are distinct)
+pub fn canon_table(v: &Val) -> Option<Val> {
+    let mut out: Vec<Vec<u8>> = vec![];
+    for e in v.as_l()? {
+        let b: Vec<u8> = e.as_l()?.iter().map(|x| x.as_i().unwrap_or(0).clamp(0, 255) as u8).collect();
+        if !out.contains(&b) {
+            out.push(b);
+        }
+    }
+    Some(table_val(&out))
+}
+
+/// code points that are not scalar values are replaced by 'a'
+pub fn canon_text(v: &Val) -> Option<Val> {
+    Some(Val::L(
+        v.as_l()?
+            .iter()
+            .map(|x| {
+                let c = x.as_i().unwrap_or(97);
+                Val::I(if u32::try_from(c).ok().and_then(char::from_u32).is_some() { c } else { 97 })
+            })
+            .collect(),
+    ))
+}
+
 pub fn val_text(v: &Val) -> Option<String> {
     v.to_string_lossy()
 }
